@@ -430,11 +430,20 @@ KEY_FRAME_IPOS = ("c32:massless-body-in-frame-ipos-not-composed", "a body withou
                   "document; the saved text has the composed pos and the reloaded body_ipos differs (stat.center/extent follow)")
 
 
+KEY_FOCALPIXEL = ("c32:default-class-camera-focalpixel-not-saved", "<default><camera focalpixel=\"0.1 1.5\"/></default> is not "
+                  "written by the default-class writer; a camera that gives focal + sensorsize takes focalpixel (which has "
+                  "priority in mjCCamera::Compile) from the class in the original and its own focal after the reload "
+                  "(cam_intrinsic, cam_fovy differ)")
+SIZE_FIELDS = ("site_size", "geom_size")
+
+
 def classify_small(m, fl):
     names = {f[0] for f in fl}
-    if names and names <= {"site_size", "geom_size"}:
+    if names and names <= set(SIZE_FIELDS):
         return KEY_SIZE
     txt = m.get("xml") or ""
+    if names and names <= {"cam_fovy", "cam_intrinsic", "cam_sensorsize", "cam_resolution"} and "focalpixel" in txt and "<default" in txt:
+        return KEY_FOCALPIXEL
     if names and "body_ipos" in names | {"body_iquat"} and "<frame" in txt and \
             names <= {"body_ipos", "body_iquat", "body_sameframe", "body_simple", "stat.extent", "stat.center", "stat.meansize"}:
         return KEY_FRAME_IPOS
@@ -655,6 +664,8 @@ def _run(ctx):
     cdocs = [compiler_stage_doc(rng, True) for _ in range(n_exact)] + [compiler_stage_doc(rng, False) for _ in range(n_rich)]
     _, cls_out, _ = ctx.run_lines([drv], ["c " + d["op"] for d in cdocs])
     _, pred_out, _ = ctx.run_lines([drv], ["i " + d["op"] for d in cdocs])
+    if len(cls_out) != len(cdocs) or len(pred_out) != len(cdocs):
+        raise common.Infra("model driver answered %d / %d lines for %d inertia ops" % (len(cls_out), len(pred_out), len(cdocs)))
     for d, co, po in zip(cdocs, cls_out, pred_out):
         w = co.split(" ")
         if w[0] != "ok" or len(w) != d["nbody"] + 1 or not po.startswith("ok C - "):
@@ -783,6 +794,13 @@ def _run(ctx):
                 continue
             xml = bytes.fromhex(r.get("xml", "")).decode("utf-8", "replace") if r.get("xml") else ""
             replay = dict(m, precision=prec, saved_xml=xml[:20000], harness="harness/cc/c32_roundtrip.cc")
+            if r["status"] == "diff" and any(f[0] in SIZE_FIELDS for f in r["fieldlist"]) and \
+                    any(f[0] not in SIZE_FIELDS for f in r["fieldlist"]):
+                # unused size components (recorded finding) next to something else: report them, go on with the rest
+                ctx.oracle_failure(KEY_SIZE[0], KEY_SIZE[1], dict(replay, differing_fields=[
+                    {"field": f[0], "count": f[1], "first_index": f[2], "original": f[3], "reloaded": f[4]}
+                    for f in r["fieldlist"] if f[0] in SIZE_FIELDS]))
+                r["fieldlist"] = [f for f in r["fieldlist"] if f[0] not in SIZE_FIELDS]
             known_cs = classify_compiler_stage(m, r.get("fieldlist", []), r["fullmsg"] if r["status"] == "fail" else "") or \
                 classify_small(m, r.get("fieldlist", []))
             replay.pop("classes", None)
